@@ -140,6 +140,7 @@ pub fn drive(args: &[String]) -> i32 {
     for (ei, e) in reg.iter().enumerate() {
         if let Some(o) = &only { if !e.label().contains(o.as_str()) { continue; } }
         if let Some(ix) = &only_idx { if !ix.contains(&ei) { continue; } }
+        if e.variant == "empty" { continue; }              // nothing to sample: outside C03 / C05
         // every timed-out call leaves a spinning thread behind: once hangs are established, stop driving
         if ntimeouts >= 12 { aborted = true; break; }
         let mut base = base_event(e, ei);
@@ -265,7 +266,7 @@ pub fn drive(args: &[String]) -> i32 {
     // 2^24 sweeps of the first word for f32 entries (in parallel, aggregated per entry)
     let mut sweeps = 0u64;
     if sweep_entries > 0 && !aborted {
-        let idx: Vec<usize> = reg.iter().enumerate().filter(|(i, e)| e.ft == "f32" && only_idx.as_ref().map(|ix| ix.contains(i)).unwrap_or(true) && only.as_ref().map(|o| e.label().contains(o.as_str())).unwrap_or(true)
+        let idx: Vec<usize> = reg.iter().enumerate().filter(|(i, e)| e.ft == "f32" && e.variant != "empty" && only_idx.as_ref().map(|ix| ix.contains(i)).unwrap_or(true) && only.as_ref().map(|o| e.label().contains(o.as_str())).unwrap_or(true)
             && ["Cauchy", "Pareto", "Weibull", "Gumbel", "Frechet", "Triangular", "Exp", "Exp1", "Normal", "StandardNormal", "LogNormal", "Zipf", "Zeta", "WeightedTreeIndex", "WeightedAliasIndex", "Beta", "Gamma", "Pert", "UnitDisc", "SkewNormal", "InverseGaussian"].contains(&e.family)).map(|(i, _)| i).collect();
         let idx: Vec<usize> = idx.into_iter().filter(|i| sweep_entries >= 2 || i % 3 == (seed % 3) as usize).collect();
         let nthreads = 12usize;
